@@ -114,6 +114,7 @@ pub enum RingApp {
     Live(Tap<fdl::live_list::LiveList>),
     Traffic(Tap<TrafficApp>),
     Multi(Vec<Tap<TrafficApp>>),
+    Scan(Tap<profirust::dp::scan::DpScanner>),
 }
 
 impl StationApps for RingApp {
@@ -122,6 +123,7 @@ impl StationApps for RingApp {
             RingApp::None => fdl.poll(now, phy, &mut ()),
             RingApp::Live(a) => fdl.poll(now, phy, a),
             RingApp::Traffic(a) => fdl.poll(now, phy, a),
+            RingApp::Scan(a) => fdl.poll(now, phy, a),
             RingApp::Multi(v) => {
                 let mut refs: Vec<&mut dyn fdl::FdlApplication> = v.iter_mut().map(|a| a as &mut dyn fdl::FdlApplication).collect();
                 fdl.poll_multi(now, phy, &mut refs[..]);
@@ -136,6 +138,7 @@ impl RingApp {
             RingApp::None => vec![],
             RingApp::Live(a) => a.log.drain(..).map(|e| (0, e)).collect(),
             RingApp::Traffic(a) => a.log.drain(..).map(|e| (0, e)).collect(),
+            RingApp::Scan(a) => a.log.drain(..).map(|e| (0, e)).collect(),
             RingApp::Multi(v) => {
                 let mut out: Vec<(usize, TapEv)> = Vec::new();
                 for (i, a) in v.iter_mut().enumerate() {
@@ -152,6 +155,7 @@ impl RingApp {
             RingApp::None => "none",
             RingApp::Live(_) => "livelist",
             RingApp::Traffic(_) => "traffic",
+            RingApp::Scan(_) => "dp-scanner",
             RingApp::Multi(_) => "multi",
         }
     }
